@@ -279,6 +279,26 @@ func (s *Schema) buildRels() map[Rel]struct{} {
 
 	for _, typ := range s.Types {
 		for _, rel := range typ.Rels {
+			// The cardinality of the other side of a two-way
+			// relationship is the one its inverse declares. A side
+			// cannot always say it itself (BuildType leaves FromOne
+			// false), and the two sides must give the same entry.
+			if rel.ToName != "" {
+				found, one := false, true
+
+				for _, inv := range s.GetType(rel.ToType).Rels {
+					if inv.FromName == rel.ToName && inv.ToName == rel.FromName &&
+						inv.ToType == typ.Name {
+						found = true
+						one = one && inv.ToOne
+					}
+				}
+
+				if found {
+					rel.FromOne = one
+				}
+			}
+
 			rels[rel.Normalize()] = struct{}{}
 		}
 	}
